@@ -68,9 +68,16 @@ def jobs(tier, seed):
     # a long-lived Partial/Derivative object used at several points, with the expression used elsewhere in between
     for d in [["NthPower", ["Add", ["Multiply", fam.X, fam.Y], ["const", 1]], 3], ["Multiply", fam.X, ["Exponential", fam.X]],
               ["Divide", ["Sine", fam.X], ["Add", fam.Y, fam.X]], ["Logarithm", ["Multiply", fam.X, fam.Y]]]:
+        add(d, routes=["fwd"], var="x", reuse_seq=[["expr", "eval", "q"]])
+        add(d, routes=["fwd", "deriv"] if len(rt.variables_of(d)) == 1 else ["fwd"], var="x", reuse_seq=[["expr", "eval", "q"], ["expr", "fwd_early", "q"]])
         add(d, routes=["fwd"], var="x", reuse_seq=[["obj", "q"]])
         add(d, routes=["fwd"], var="x", reuse_seq=[["obj", ""], ["expr", "eval", "q"]])
         add(d, routes=["fwd"], var="x", reuse_seq=[["obj", ""], ["expr", "rev", "q"]])
+    for d in [["NthPower", ["Add", ["Add", fam.X, fam.Y], ["const", 1]], 2], ["Logarithm", ["Add", ["Add", fam.X, ["const", 2]], ["NthPower", fam.X, 2]]],
+              ["Sine", ["Add", ["Add", fam.X, fam.Y], ["const", 1]]], ["Multiply", ["Add", ["Add", fam.X, fam.Y], fam.X], ["Exponential", ["Add", ["Add", fam.X, ["const", 1]], fam.Y]]]]:
+        # the expression was simplified (twice) before: its own forward-mode partial must not change
+        add(d, routes=["fwd"], var="x", pre=[["asexp_partial", "root", None], ["asexp_partial", "root", None]])
+        add(d, routes=["fwd"], var="x", pre=[["normalize", "root", None], ["asexp_partial", "root", None], ["normalize", "root", None]])
     for d in (["Multiply", fam.A(1), fam.A(2)], ["NthRoot", fam.A(1), 3], ["Power", fam.V(1), fam.V(2)]):
         add(d, var="x" if d[0] != "Power" else "v1", twin="oracle+1")
     for i, j in enumerate(js):
